@@ -214,9 +214,17 @@ BASE_AMBIENT = {"entropy": 1, "clock": 1700000000, "pid": 4242, "host": "vsim-ho
 def gen_history(rng, n_edits, hidx):
     """A history is a list of edits; each state i is edits[:i]."""
     edits = []
-    inserted, nonbridge = [], False
+    inserted, nonbridge, shadows = [], False, []
     for i in range(n_edits):
-        r = rng.below(12)
+        r = rng.below(14)
+        if r >= 12:
+            if shadows and rng.chance(1, 2):
+                edits.append("remove_shadow_module:%d" % shadows.pop())
+            else:
+                k = hidx * 100 + i
+                shadows.append(k)
+                edits.append("insert_shadow_module:%d:%d" % (k, 1 + rng.below(1 << 30)))
+            continue
         if r < 1:
             edits.append("noop")
         elif r < 3:
@@ -252,6 +260,10 @@ def compare(ctx, backend, before, after, oracle, edit):
         # a crash of the tool is C15's subject; here it only means this comparison cannot be made
         ctx.inc("tool_crashed_comparison_skipped")
         return None
+    if edit.startswith("insert_shadow_module") and before["rc"] == 0 and after["rc"] != 0:
+        # backends that do not render renames reject (or collide on) a same-named type: not this property's subject
+        ctx.inc("shadow_module_rejected_by_backend")
+        return None
     if before["rc"] != after["rc"]:
         return {"what": "exit status %d vs %d" % (before["rc"], after["rc"])}
     if before["rc"] != 0:
@@ -284,6 +296,10 @@ def compare(ctx, backend, before, after, oracle, edit):
 
 def oracle_for(edit):
     k = edit.split(":")[0]
+    if k in ("insert_shadow_module",):
+        return "D3"
+    if k in ("remove_shadow_module",):
+        return "D3-remove"
     return {"<original>": "D1", "noop": "D1", "perm_mods": "D2", "perm_types": "D2", "insert_type": "D3", "remove_type": "D3-remove", "insert_nonbridge": "D4", "remove_nonbridge": "D4"}[k]
 
 
@@ -292,6 +308,10 @@ def reference_state(edits, i):
     e = edits[i]
     if e == "<original>":
         return edits
+    if e.startswith("remove_shadow_module:"):
+        k = e.split(":")[1]
+        j = max(x for x in range(i) if edits[x].startswith("insert_shadow_module:%s:" % k))
+        return edits[:j] + [x for x in edits[j + 1:i]]
     if e.startswith("remove_type:"):
         name = e.split(":")[1]
         # history independence: compare with the state just before the matching insertion, provided
@@ -327,6 +347,9 @@ def minimise(ctx, corpus, edits, i, backend, amb_a, amb_b, oracle):
         cand = ed[:k] + ed[k + 1:]
         # never drop the insertion a remove_type refers to
         if ed[idx].startswith("remove_type:") and ed[k].startswith("insert_type:%s:" % ed[idx].split(":")[1]):
+            k += 1
+            continue
+        if ed[idx].startswith("remove_shadow_module:") and ed[k].startswith("insert_shadow_module:%s:" % ed[idx].split(":")[1]):
             k += 1
             continue
         if still(cand, idx - 1, amb_a, amb_b):
